@@ -85,9 +85,12 @@ def read_words(cmd):
 
 
 def last_values(words):
+    """last value *given* for each letter: a valueless repeat of a letter does not erase an earlier
+    value (C19); a letter only ever seen without a value maps to None"""
     d = {}
     for (l, v, _t) in words:
-        d[l] = v
+        if v is not None or l not in d:
+            d[l] = v
     return d
 
 
@@ -125,7 +128,7 @@ class Printer(object):
     def _target(self, axis, v):
         v = v * self.unit
         if self.abs:
-            return v + self.off[axis] + self.hoff[axis]
+            return v + (self.off[axis] + self.hoff[axis])
         return self.pos[axis] + v
 
     def execute(self, cmd):
